@@ -680,6 +680,36 @@ let judge_keepalive ins outs : verdict =
   (try go items outs with Exit -> ());
   VOk (!nresp >= 2 && (!acted || mode <> "plain"))
 
+(* ------------------------------ X ---------------------------------- *)
+
+(* a halt in progress on one connection must not hold up anything else: the configuration POST
+   and the unrelated exchange on a new connection both finish well inside the halt (a third of it) *)
+let judge_halt_interleave ins outs : verdict =
+  if List.mem "PANIC" outs then raise (Fail ("no_panic", "the code under test panicked"));
+  let (_, rest) = split_bar ins in
+  let d = ios (List.assoc "d" (kvs rest)) in
+  let bound = d * 1000 / 3 in
+  (match outs with
+   | ["listen-failed"] -> ()
+   | [st; _; post; fast; a] when st = "st200" ->
+       let first t pre = ios (List.hd (split ':' (String.sub t (String.length pre) (String.length t - String.length pre)))) in
+       let pel = first post "post" and fel = first fast "fast" and ael = first a "a" in
+       (match split ':' fast with
+        | [_; "ok"; n] when ios n > 300 -> ()
+        | _ -> raise (Fail ("only_matching", "the exchange that matches no shape did not complete: " ^ fast)));
+       if not (ok_grant (zi fel) (zi bound)) then
+         raise (Fail ("halt_only_matching", Printf.sprintf "while another connection sat in its halt of %d ms, a response matching no shape on a new connection took %d us (bound: a third of the halt)" d fel));
+       (match split ':' post with
+        | [_; "200"] -> ()
+        | _ -> raise (Dis ("repost " ^ post)));
+       if not (ok_grant (zi pel) (zi bound)) then
+         raise (Fail ("config_applies_promptly", Printf.sprintf "a configuration POST during a halt of %d ms on some connection took %d us to be accepted (bound: a third of the halt)" d pel));
+       (* the halted response itself: at least its halt *)
+       if not (ok_total_delay [Sleep (zi d); Emit ['x']] (zi ael)) then
+         raise (Fail ("halt_delay_total", Printf.sprintf "the halted response took %d us, halt %d ms" ael d))
+   | _ -> raise (Dis "halt-interleave-out-shape"));
+  VOk true
+
 (* ------------------------------ R ---------------------------------- *)
 
 let judge_rate ins outs : verdict =
@@ -737,6 +767,7 @@ let judge _name ins outs =
     | "I" :: r -> judge_integration r outs
     | "R" :: r -> judge_rate r outs
     | "K" :: r -> (try judge_keepalive r outs with Exit -> VOk false)
+    | "X" :: r -> judge_halt_interleave r outs
     | _ -> VDisagree "unknown-case-kind"
   with
   | Fail (c, d) -> VPropfail (c, String.concat "_" (String.split_on_char ' ' d))
